@@ -551,7 +551,11 @@ class Array:
         self._connection: sdkconn.BaseNetQASMConnection = connection
         self._length: int = length
         self._address: int = address
-        self._init_values: Optional[List[Optional[int]]] = init_values
+        # The initial values are those at the time the array is created (the commands
+        # that write them are built when the subroutine is flushed)
+        self._init_values: Optional[List[Optional[int]]] = (
+            None if init_values is None else list(init_values)
+        )
         self._lineno: Optional[HostLine] = lineno
 
     @property
